@@ -60,11 +60,35 @@ def run(ctx):
         return res
     asked = {"n": 0}
 
-    def check(label, known_size, sig, detail, expect_nobody=False):
+    class UwsgiWrapper:
+        """uWSGI's file wrapper: an object with a descriptor goes out by
+        sendfile, whole and from offset 0; anything else in blocks"""
+        def __init__(self, filelike, blksize=8192):
+            self.filelike, self.blksize = filelike, blksize
+
+        def __iter__(self):
+            try:
+                fd = self.filelike.fileno()
+            except (AttributeError, OSError):
+                return iter(lambda: self.filelike.read(self.blksize), b"")
+            size = os.fstat(fd).st_size
+            return iter([os.pread(fd, size, 0)] if size else [])
+
+        def close(self):
+            if hasattr(self.filelike, "close"):
+                self.filelike.close()
+
+    def check(label, known_size, sig, detail, expect_nobody=False,
+              uwsgi=False):
         asked["n"] += 1
         method = ("GET", "HEAD", "POST", "GET", "PUT")[asked["n"] % 5]
         cur["peek"] = label != "fileobj-raw" and asked["n"] % 3 == 0
-        ans = call(app, environ(method=method, path="/r"))
+        env = environ(method=method, path="/r")
+        if uwsgi:
+            del env["SERVER_SOFTWARE"]
+            env["uwsgi.version"] = b"2.0.21"
+            env["wsgi.file_wrapper"] = UwsgiWrapper
+        ans = call(app, env)
         detail = dict(detail, method=method, data_read_by_hook=cur["peek"])
         ctx.case(sig, True, dict(detail, kind=label, status=ans.status))
         ctx.count(label)
@@ -171,6 +195,45 @@ def run(ctx):
             if size:
                 cur["make"] = lambda path=path: FileResponse(path)
                 check("fileresponse", True, ("path", size), {"size": size})
+        # ---- partial answers: lengths the handler declared itself under
+        # any spelling of the header name; files under a uWSGI-like server
+        # (sendfile wrapper, which partial answers must not go through)
+        big = bytes(rng.randrange(256) for _ in range(60))
+        bigpath = os.path.join(tmpdir, "big.bin")
+        with open(bigpath, "wb") as fil:
+            fil.write(big)
+        for _ in range(40 if ctx.quick else 600):
+            kind = rng.choice(["buf", "gen", "fileobj", "path"])
+            first = rng.choice([None, 0, 1, 10, 59])
+            last = rng.choice([None, 0, 5, 30, 59, 80])
+            if first is None and last in (None, 0):
+                last = 7
+            if first is not None and last is not None and last < first:
+                last = None
+            spell = rng.choice([None, "content-length", "CONTENT-LENGTH",
+                                "Content-Length"])
+            uwsgi = kind in ("fileobj", "path") and rng.random() < 0.6
+
+            def make(kind=kind, first=first, last=last, spell=spell):
+                if kind == "buf":
+                    res = Response(big)
+                elif kind == "gen":
+                    res = GeneratorResponse(
+                        iter([big[:7], big[7:8], big[8:40], big[40:]]),
+                        content_length=len(big))
+                elif kind == "fileobj":
+                    res = FileObjResponse(open(bigpath, "rb"))
+                else:
+                    res = FileResponse(bigpath)
+                if spell:
+                    res.add_header(spell, str(len(big)))
+                res.make_partial([(first, last)])
+                return res
+            cur["make"] = make
+            check("partial-" + kind, True,
+                  ("partial", kind, first, last, spell, uwsgi),
+                  {"range": [first, last], "declared_as": spell,
+                   "uwsgi": uwsgi}, uwsgi=uwsgi)
         # ---- generator with declared length
         for _ in range(20 if ctx.quick else 3000):
             chunks = [bytes(rng.randrange(256)
@@ -240,11 +303,13 @@ def run(ctx):
         "pool (str/bytes/multi-byte/.data read) plus random long ones, each "
         "with a random range; file objects (BytesIO, real file, non-seekable "
         "raw stream) at every offset; generators with declared length; every "
-        "status code; no-body classes; built-in 404 pages for path lengths "
+        "status code; partial answers with handler-declared lengths in four "
+        "spellings and files under a uWSGI-like sendfile wrapper; no-body "
+        "classes; built-in 404 pages for path lengths "
         "0..300; request methods GET/HEAD/POST/PUT in rotation, every third "
         "response read through .data by an after hook before it is sent; "
         "distinct by full case tuple" % maxlen,
         assumptions=["a non-seekable stream without fileno has unknown size "
                      "and is outside 'size known'",
-                     "user-supplied Content-Length headers are not "
-                     "overridden (not generated)"])
+                     "what uWSGI does with a file object positioned beyond "
+                     "its beginning is not emulated"])
